@@ -188,61 +188,49 @@ def tok_str(t):
 
 # ---------------------------------------------------------------- recording
 
-def record_pair(op, mode, num, kmul, kadd, unit, raw):
-    """the streaming and the reduce subscription of `op` on the items raw[j]/unit"""
-    if num == 'float':
-        vals = [a / unit for a in raw]
-    elif op == 'sum':       # the float seed 0.0 turns Fractions into floats: ints / dyadics
-        vals = [a if unit == 1 else a / unit for a in raw]
-    else:
-        vals = [Fraction(a, unit) for a in raw]
-    items = [{'v': v} for v in vals]
-    decoy = [{'v': v} for v in reversed(vals)]
+def record_group(raw, kmul, kadd, unit, mode, num, ops=OPS):
+    """One record: the items raw[j]/unit sent to a streaming and a reduce subscription of
+    every operator in `ops` (each with its own fresh operator instance and source)."""
+    ops = [op for op in ops if in_property(op, raw)]
+    rec = {'mode': mode, 'num': num, 'unit': unit, 'kmul': kmul, 'kadd': kadd,
+           'items': list(raw), 'ops': ops, 's': {}, 'r': {}, 'raw': {'s': {}, 'r': {}}}
     mx = max([abs(kmul * a / unit + kadd) for a in raw] + [1.0])
+    tol = [Fraction(16 * (j + 1) * EPS * mx * mx) if num == 'float' else 0
+           for j in range(len(raw) + 1)]
+    for op in ops:
+        if num == 'float':
+            vals = [a / unit for a in raw]
+        elif op == 'sum':   # the float seed 0.0 turns Fractions into floats: ints / dyadics
+            vals = [a if unit == 1 else a / unit for a in raw]
+        else:
+            vals = [Fraction(a, unit) for a in raw]
+        items = [{'v': v} for v in vals]
+        decoy = [{'v': v} for v in reversed(vals)]
 
-    def make(reduce):
-        def make_op(calls):
-            def km(i):
-                calls[0] += 1
-                return kmul * i['v'] + kadd
-            return factory(op)(km, reduce=reduce)
-        return make_op
-    recs = []
-    for reduce in (0, 1):
-        outs, final, ended, km = drive(mode, make(bool(reduce)), items, decoy)
-        tol = [Fraction(16 * (j + 1) * EPS * mx * mx) if num == 'float' else 0
-               for j in range(len(raw) + 1)]
-        rec = {'op': op, 'mode': mode, 'num': num, 'reduce': reduce, 'unit': unit,
-               'kmul': kmul, 'kadd': kadd, 'items': list(raw),
-               'outs': [[token(op, r, num, tol[j]) for r in o] for j, o in enumerate(outs)],
-               'final': [token(op, r, num, tol[max(0, len(raw) - 1)]) for r in final],
-               'ended': ended, 'km': km, 'sib': BADTOK,
-               'raw': {'outs': [[repr(r) for r in o] for o in outs],
-                       'final': [repr(r) for r in final]}}
-        recs.append(rec)
-    s, r = recs
-    if raw and s['outs'][-1]:
-        r['sib'] = s['outs'][-1][-1]
-    return recs
+        def make(reduce):
+            def make_op(calls):
+                def km(i):
+                    calls[0] += 1
+                    return kmul * i['v'] + kadd
+                return factory(op)(km, reduce=reduce)
+            return make_op
+        for side, reduce in (('s', False), ('r', True)):
+            outs, final, ended, km = drive(mode, make(reduce), items, decoy)
+            rec[side][op] = {
+                'outs': [[token(op, r, num, tol[j]) for r in o] for j, o in enumerate(outs)],
+                'final': [token(op, r, num, tol[max(0, len(raw) - 1)]) for r in final],
+                'ended': ended, 'km': km}
+            rec['raw'][side][op] = {'outs': [[repr(r) for r in o] for o in outs],
+                                    'final': [repr(r) for r in final]}
+    return rec
 
 
 def in_property(op, raw):
     return not (op == 'mean' and len(raw) == 0)     # mean of nothing: outside C12
 
 
-def record_all(raw, kmul, kadd, unit, modes, nums=('exact', 'float'), ops=OPS):
-    out = []
-    for op in ops:
-        if not in_property(op, raw):
-            continue
-        for mode in modes:
-            for num in nums:
-                out += record_pair(op, mode, num, kmul, kadd, unit, raw)
-    return out
-
-
 def nontrivial(rec):
-    """a record exercises the property non-trivially when the expected statistic moves:
+    """a record exercises the property non-trivially when the expected statistics move:
     at least two different item values (variance > 0)"""
     return len(set(rec['items'])) >= 2
 
@@ -506,52 +494,62 @@ INV_FAITHFUL = [i for i in INV_ALL if i != 'FormalStreaming']    # + FormalRepor
 KMS = [(1, 0), (-1, 1)]
 
 
-def trace_cfg(km, clears):
-    return C.cfg(spec='TraceSpec', constants=mc_const(0, 0, km, clears, []),
+def trace_cfg(clears):
+    return C.cfg(spec='TraceSpec', constants=mc_const(0, 0, (1, 0), clears, []),
                  invariants=['TraceModelOK'])
 
 
-def strip(rec):
-    return {k: v for k, v in rec.items() if k != 'raw'}
+def strip(rec, ops=None):
+    out = {k: v for k, v in rec.items() if k != 'raw'}
+    if ops is not None:
+        out.update(ops=list(ops), s={o: rec['s'][o] for o in ops}, r={o: rec['r'][o] for o in ops})
+    return out
 
 
-def validate(records, clears):
-    """TLC verdicts for records (grouped by key_mapper constants)."""
-    verdicts = [None] * len(records)
+def validate(records, clears, only=None):
+    """TLC verdicts: verdicts[i] = {op: {'s': (step, clause, insync), 'r': (...)}};
+    only[i]: restrict record i to these operators."""
     tstats = {'states': 0, 'transitions': 0, 'tlc_runs': 0, 'wall_s': 0.0}
-    for km in KMS:
-        idx = [i for i, r in enumerate(records) if (r['kmul'], r['kadd']) == km]
-        vs, st = C.validate_traces('MathAggTrace', [strip(records[i]) for i in idx],
-                                   cfg_text=trace_cfg(km, clears), chunk=600)
-        for i, v in zip(idx, vs):
-            verdicts[i] = v
-        for k in tstats:
-            tstats[k] += st[k]
-    if any(v is None for v in verdicts):
-        raise C.MachineryError('records with an unknown key_mapper configuration')
+    send = [strip(r, only[i] if only else None) for i, r in enumerate(records)]
+    chunk = max(100, -(-len(send) // 6))
+    vs, st = C.validate_traces('MathAggTrace', send, cfg_text=trace_cfg(clears), chunk=chunk)
+    verdicts = []
+    for rec, v in zip(send, vs):
+        if v[0] != 'DONE':
+            raise C.MachineryError('trace spec/harness problem: %s on %r' % (v, rec))
+        vd = {o: {'s': tuple(a), 'r': tuple(b)} for (o, a, b) in v[1]}
+        if sorted(vd) != sorted(rec['ops']):
+            raise C.MachineryError('verdicts do not cover the operators of the record')
+        verdicts.append(vd)
+    for k in tstats:
+        tstats[k] += st[k]
     return verdicts, tstats
 
 
-def witness_of(rec, v):
-    """the dict given to V.violation for a rejected record"""
-    step, clause = v[1], v[2]
+def witness_of(rec, op, side, v):
+    """the dict given to V.violation for a rejected subscription"""
+    step, clause = v[0], v[1]
     n = len(rec['items'])
-    w = {'op': rec['op'], 'mode': rec['mode'], 'num': rec['num'], 'reduce': bool(rec['reduce']),
+    w = {'op': op, 'mode': rec['mode'], 'num': rec['num'], 'reduce': side == 'r',
          'key_mapper': [rec['kmul'], rec['kadd']], 'unit': rec['unit'], 'items': rec['items'],
          'step': step, 'streamed': None}
-    if not rec['reduce']:
+    souts = rec['s'][op]['outs']
+    if side == 's':
         w['wrong_side'] = 'streaming'
-        if clause == 'value' and 1 <= step <= n and rec['outs'][step - 1]:
-            w['streamed'] = tok_str(rec['outs'][step - 1][0])
-            w['got_raw'] = rec['raw']['outs'][step - 1]
+        if clause == 'value' and 1 <= step <= n and souts[step - 1]:
+            w['streamed'] = tok_str(souts[step - 1][0])
+        w['got_raw'] = rec['raw']['s'][op]
     elif clause == 'streaming-vs-reduce':
         w['wrong_side'] = 'streaming'       # the reduce value is the specified one
-        w['streamed'] = tok_str(rec['sib'])
-        w['got_raw'] = rec['raw']['final']
+        w['streamed'] = tok_str(souts[n - 1][0])
+        w['got_raw'] = {'reduce': rec['raw']['r'][op]['final'],
+                        'last_streaming': rec['raw']['s'][op]['outs'][n - 1]}
     else:
         w['wrong_side'] = 'reduce'
-        w['got_raw'] = rec['raw']['final']
-    w['trace'] = rec
+        w['got_raw'] = rec['raw']['r'][op]
+    w['trace'] = {k: (x if k not in ('s', 'r', 'raw') else None) for k, x in rec.items()}
+    w['trace'].update(ops=[op], s={op: rec['s'][op]}, r={op: rec['r'][op]},
+                      raw={'s': {op: rec['raw']['s'][op]}, 'r': {op: rec['raw']['r'][op]}})
     return w
 
 
@@ -587,17 +585,21 @@ def do_replay(path):
             return 1
         return 0
     tr = w['trace']
-    recs = record_pair(tr['op'], tr['mode'], tr['num'], tr['kmul'], tr['kadd'], tr['unit'],
-                       tr['items'])
-    new = recs[tr['reduce']]
+    op = w['op']
+    side = 'r' if w['reduce'] else 's'
+    new = record_group(tr['items'], tr['kmul'], tr['kadd'], tr['unit'], tr['mode'], tr['num'],
+                       ops=[op])
     vs, _ = validate([new], False)
-    print('replay verdict:', vs[0])
+    v = vs[0][op][side]
+    print('replay verdict (step, clause, insync):', v)
     print('%s mode=%s reduce=%s items=%s/%d key_mapper=%d*x+%d'
-          % (tr['op'], tr['mode'], tr['reduce'], tr['items'], tr['unit'], tr['kmul'], tr['kadd']))
-    print('real outputs per item:', new['raw']['outs'], 'at completion:', new['raw']['final'],
-          new['ended'])
-    if vs[0][0] == 'REJECT':
-        print('VIOLATION property=%s replay=%s clause=%s' % (PROP, path, vs[0][2]))
+          % (op, tr['mode'], w['reduce'], tr['items'], tr['unit'], tr['kmul'], tr['kadd']))
+    for sd, nm in (('s', 'streaming'), ('r', 'reduce')):
+        print('%s subscription: per item %s at completion %s (%s)'
+              % (nm, new['raw'][sd][op]['outs'], new['raw'][sd][op]['final'],
+                 new[sd][op]['ended']))
+    if v[1] != '':
+        print('VIOLATION property=%s replay=%s clause=%s' % (PROP, path, v[1]))
         return 1
     return 0
 
@@ -612,17 +614,19 @@ def main(tier, replay):
     rng = random.Random(C.seed() * 7919 + 12)
     thorough = tier == 'thorough'
 
-    # 1. model checking -----------------------------------------------------------------
+    # 1. model checking (TLC jobs run in the background while the real code is driven) ------
     L = 8 if thorough else 6            # non-formal operators: all sequences over -3..3
-    LF = 6 if thorough else 4           # formal.* (one state per sequence)
+    LF = 5 if thorough else 4           # formal.* (one state per sequence)
     LC = 5 if thorough else 4           # the code as it is (FormalClears = TRUE)
     jobs = []       # (label, constants, invariants, kwargs)
     for km in KMS:
         jobs.append(('algebra', mc_const(3, L, km, False, NONFORMAL), INV_ALL, {}))
     if thorough:
-        jobs.append(('algebra-wide', mc_const(5, 9, (1, 0), False, NONFORMAL), INV_ALL, {}))
+        jobs.append(('algebra-wide', mc_const(4, 9, (1, 0), False, NONFORMAL), INV_ALL,
+                     {'workers': 6}))
+        jobs.append(('formal-repaired', mc_const(2, 6, (1, 0), False, FORMAL), INV_ALL, {}))
     jobs.append(('formal-repaired', mc_const(3, LF, (1, 0), False, FORMAL), INV_ALL,
-                 {'workers': 8 if thorough else 4}))
+                 {'workers': 6 if thorough else 4}))
     jobs.append(('formal-repaired', mc_const(1, L, (-1, 1), False, FORMAL), INV_ALL, {}))
     jobs.append(('formal-as-coded', mc_const(3, LC, (1, 0), True, FORMAL), INV_FAITHFUL, {}))
     jobs.append(('all-operators', mc_const(2, 3, (1, 0), False, OPS), INV_ALL, {'coverage': True}))
@@ -636,9 +640,70 @@ def main(tier, replay):
     def run(job):
         label, const, invs, kw = job
         kw = dict(kw)
-        kw.setdefault('workers', 4)
+        kw.setdefault('workers', 3)
         return C.run_tlc('MathAgg', C.cfg(constants=const, invariants=invs), **kw)
-    results = C.par([lambda j=j: run(j) for j in jobs], max_workers=8)
+
+    # 2. behaviours generated by TLC ----------------------------------------------------
+    nsim = 1500 if thorough else 130
+    gens = [('exhaustive', mc_const(3, 3 if thorough else 2, (1, 0), False, [], keephist=True), None),
+            ('simulation', mc_const(3, L, (1, 0), False, [], keephist=True), nsim)]
+
+    def gen(job):
+        kind, const, sim = job
+        text = C.cfg(constants=const, invariants=['EmitBehaviour'])
+        if sim is None:
+            r = C.run_tlc('MathAgg', text, workers=2)
+        else:
+            r = C.run_tlc('MathAgg', text, workers=1, simulate='num=%d' % sim, depth=L + 3,
+                          tlc_seed=C.seed() + 1)
+        return kind, [b[1] for b in C.extract_printed(r.stdout, 'BEH')]
+    import concurrent.futures as cf
+    pool = cf.ThreadPoolExecutor(max_workers=len(jobs) + len(gens))
+    gen_futs = [pool.submit(gen, j) for j in gens]
+    mc_futs = [pool.submit(run, j) for j in jobs]
+    behaviours = []
+    gen_counts = []
+    for f in gen_futs:
+        kind, b = f.result()
+        gen_counts.append({'kind': kind, 'generated': len(b)})
+        behaviours += b
+    seen = set()
+    uniq = []
+    for b in behaviours:
+        if tuple(b) not in seen:
+            seen.add(tuple(b))
+            uniq.append(b)
+    V.phase('behaviour generation')
+
+    # 3. replay into the real code + executions beyond the model bounds -------------------
+    records = []
+    for n, raw in enumerate(uniq):
+        km = KMS[n % 2]
+        modes = ['plain', 'mux'] + (['store'] if n % 3 == 0 else [])
+        for mode in modes:
+            for num in ('exact', 'float'):
+                records.append(record_group(raw, km[0], km[1], 1, mode, num))
+    n_replayed = len(uniq)
+    n_beh_records = len(records)
+    nrand = 400 if thorough else 60
+    for n in range(nrand):
+        unit = rng.choice([1, 1, 2])
+        ln = rng.choice([0, 1, 2, 3, 5, 8])
+        pal = rng.choice([None, None, [rng.randint(-12, 12)] * 2 + [rng.randint(-12, 12)]])
+        raw = [rng.choice(pal) if pal else rng.randint(-12, 12) for _ in range(ln)]
+        km = KMS[n % 2]
+        records.append(record_group(raw, km[0], km[1], unit, rng.choice(['plain', 'mux', 'store']),
+                                    rng.choice(['exact', 'exact', 'float'])))
+    n_subs = sum(2 * len(r['ops']) for r in records)
+    V.phase('replay and random executions')
+
+    # 5. auxiliary numeric probe (python, sampling) ------------------------------------
+    probe = numeric_probe(random.Random(C.seed() * 104729 + 12), thorough, V)
+    V.phase('numeric probe')
+
+    # (1.) collect the model-checking results ---------------------------------------------
+    results = [f.result() for f in mc_futs]
+    pool.shutdown()
     mc_stats = []
     formal_bad = None
     counterexample = None
@@ -664,83 +729,43 @@ def main(tier, replay):
     if bad_seqs != predicted:
         raise C.MachineryError('FormalReport: failing sequences of the faithful model are not '
                                'the non-constant ones (%d vs %d)' % (len(bad_seqs), len(predicted)))
-    V.phase('model checking')
-
-    # 2. behaviours generated by TLC ----------------------------------------------------
-    nsim = 1500 if thorough else 130
-    gens = [('exhaustive', mc_const(3, 3 if thorough else 2, (1, 0), False, [], keephist=True), None),
-            ('simulation', mc_const(3, L, (1, 0), False, [], keephist=True), nsim)]
-
-    def gen(job):
-        kind, const, sim = job
-        text = C.cfg(constants=const, invariants=['EmitBehaviour'])
-        if sim is None:
-            r = C.run_tlc('MathAgg', text, workers=2)
-        else:
-            r = C.run_tlc('MathAgg', text, workers=1, simulate='num=%d' % sim, depth=L + 3,
-                          tlc_seed=C.seed() + 1)
-        return kind, [b[1] for b in C.extract_printed(r.stdout, 'BEH')]
-    behaviours = []
-    gen_counts = []
-    for kind, b in C.par([lambda j=j: gen(j) for j in gens]):
-        gen_counts.append({'kind': kind, 'generated': len(b)})
-        behaviours += b
-    seen = set()
-    uniq = []
-    for b in behaviours:
-        if tuple(b) not in seen:
-            seen.add(tuple(b))
-            uniq.append(b)
-    V.phase('behaviour generation')
-
-    # 3. replay into the real code + executions beyond the model bounds -------------------
-    records = []
-    for n, raw in enumerate(uniq):
-        km = KMS[n % 2]
-        modes = ['plain', 'mux'] + (['store'] if n % 3 == 0 else [])
-        records += record_all(raw, km[0], km[1], 1, modes)
-    n_replayed = len(uniq)
-    n_beh_records = len(records)
-    nrand = 400 if thorough else 40
-    for n in range(nrand):
-        unit = rng.choice([1, 1, 2])
-        ln = rng.choice([0, 1, 2, 3, 5, 8])
-        pal = rng.choice([None, None, [rng.randint(-12, 12)] * 2 + [rng.randint(-12, 12)]])
-        raw = [rng.choice(pal) if pal else rng.randint(-12, 12) for _ in range(ln)]
-        km = KMS[n % 2]
-        records += record_all(raw, km[0], km[1], unit, [rng.choice(['plain', 'mux', 'store'])])
-    V.phase('replay and random executions')
+    V.phase('model checking (waited)')
 
     # 4. validation by TLC --------------------------------------------------------------
     verdicts, tstats = validate(records, False)
-    rejected = [i for i, v in enumerate(verdicts) if v[0] == 'REJECT']
-    out_of_sync = [i for i, v in enumerate(verdicts) if v[-1] is not True]
+
+    def unsynced(vd):
+        return [(op, side) for op in vd for side in ('s', 'r') if vd[op][side][2] is not True]
+    out_of_sync = [i for i, vd in enumerate(verdicts) if unsynced(vd)]
     explained = 0
+    out_of_sync_final = []
     if out_of_sync:
         # does the model of the code as it is (FormalClears = TRUE) explain them ?
-        v2, st2 = validate([records[i] for i in out_of_sync], True)
+        v2, st2 = validate([records[i] for i in out_of_sync], True,
+                           only=[sorted({op for op, _ in unsynced(verdicts[i])})
+                                 for i in out_of_sync])
         for k in ('states', 'transitions', 'tlc_runs', 'wall_s'):
             tstats[k] += st2[k]
-        still = []
-        for i, v in zip(out_of_sync, v2):
-            if v[-1] is True:
-                explained += 1
-            else:
-                still.append(i)
-        out_of_sync_final = still
-    else:
-        out_of_sync_final = []
+        for i, vd in zip(out_of_sync, v2):
+            left = unsynced(vd)
+            explained += len(unsynced(verdicts[i])) - len(left)
+            out_of_sync_final += [(i, op, side) for (op, side) in left]
     nontriv = set()
-    for rec, v in zip(records, verdicts):
-        if v[0] == 'ACCEPT':
-            if nontrivial(rec):
-                nontriv.add((rec['op'], rec['mode'], rec['num'], rec['reduce'], rec['unit'],
-                             rec['kmul'], tuple(rec['items'])))
-        else:
-            clause = v[2]
-            if clause.startswith('model-'):
-                raise C.MachineryError('trace spec/harness problem: %s on %r' % (v, rec))
-            V.violation(witness_of(rec, v), clause, detail='step %s' % v[1])
+    n_rejected = 0
+    for rec, vd in zip(records, verdicts):
+        for op in rec['ops']:
+            for side in ('s', 'r'):
+                step, clause, _ = vd[op][side]
+                if clause == '':
+                    if nontrivial(rec):
+                        nontriv.add((op, side, rec['mode'], rec['num'], rec['unit'], rec['kmul'],
+                                     tuple(rec['items'])))
+                    continue
+                n_rejected += 1
+                if clause.startswith('model-'):
+                    raise C.MachineryError('trace spec/harness problem: %s on %r' % (clause, rec))
+                V.violation(witness_of(rec, op, side, vd[op][side]), clause,
+                            detail='step %s' % step)
     V.phase('trace validation')
 
     # empty input of mean: outside the property (length >= 1), only noted
@@ -749,32 +774,29 @@ def main(tier, replay):
         o, f, e, _ = drive(mode, lambda calls: factory('mean')(reduce=True), [])
         mean_empty[mode] = {'emitted': [repr(x) for x in f], 'ended': e}
 
-    # 5. auxiliary numeric probe (python, sampling) ------------------------------------
-    probe = numeric_probe(random.Random(C.seed() * 104729 + 12), thorough, V)
-    V.phase('numeric probe')
-
     if out_of_sync_final:
-        r0 = records[out_of_sync_final[0]]
-        V.note('impl_model_in_sync=false: %d records differ from the implementation-shaped '
+        i0, op0, side0 = out_of_sync_final[0]
+        V.note('impl_model_in_sync=false: %d subscriptions differ from the implementation-shaped '
                'model in something C12 does not constrain (key_mapper calls per item or the '
-               'exact representation), e.g. %s %s km calls %s'
-               % (len(out_of_sync_final), r0['op'], r0['mode'], r0['km']))
+               'representation of a value), e.g. %s %s %s key_mapper calls %s'
+               % (len(out_of_sync_final), op0, records[i0]['mode'], side0,
+                  records[i0][side0][op0]['km']))
     model_variant = 'FormalClears=FALSE (repaired behaviour)'
     if explained:
-        model_variant = ('FormalClears=TRUE (code as it is): %d records rejected by the '
-                         'specification are exactly what the faithful model emits' % explained)
+        model_variant = ('FormalClears=TRUE (code as it is): %d subscriptions that differ from '
+                         'the repaired model emit exactly what the faithful model emits' % explained)
     samples = []
-    for want in (('variance', 0), ('formal.variance', 1), ('stddev', 0)):
-        for rec, v in zip(records, verdicts):
-            if (rec['op'], rec['reduce']) == want and len(rec['items']) >= 4 and v[0] == 'ACCEPT':
-                samples.append({'verdict': list(v), 'trace': rec})
-                break
+    for rec, vd in zip(records, verdicts):
+        if len(rec['items']) >= 4 and nontrivial(rec) and rec['num'] == 'exact':
+            samples.append({'verdicts (op: s/r -> step, clause, insync)': vd, 'trace': rec})
+            break
     uncovered = sorted({a for (_, _, r) in mc_stats for a, (d, t) in r.coverage.items() if t == 0})
     nseq = lambda vmax, ln: sum((2 * vmax + 1) ** k for k in range(ln + 1))
     coverage = {
         'states': sum(r.distinct for (_, _, r) in mc_stats) + tstats['states'],
         'transitions': sum(r.generated for (_, _, r) in mc_stats) + tstats['transitions'],
-        'traces_validated_against_impl': len(records),
+        'traces_validated_against_impl': n_subs,
+        'records (one item sequence, all operators, streaming + reduce)': len(records),
         'samples': samples,
         'exhaustive': True,
         'model_checking_runs': [{'run': label, 'constants': {k: str(v) for k, v in c.items()},
@@ -798,10 +820,10 @@ def main(tier, replay):
         'random_executions': nrand,
         'distinct_nontrivial': len(nontriv),
         'rule': 'an accepted record is non-trivial when its items take at least two different '
-                'values (the variance moves); distinct by (op, mode, number type, reduce, '
+                'values (the variance moves); distinct by (op, streaming|reduce, mode, number type, '
                 'key_mapper, items)',
         'trace_validation': tstats,
-        'records_rejected': len(rejected),
+        'subscriptions_rejected': n_rejected,
         'impl_model_in_sync': not out_of_sync_final,
         'impl_model_variant': model_variant,
         'actions_never_taken': uncovered,
